@@ -70,9 +70,11 @@ class C18Script(EnumCheck):
         out = self.dir
         mgr = HpcManager({"g2": g2, "g1": g1}, out)
         res = []
-        for gname, exp_opts, ea, ew in (("g1", opts, acct, wall), ("g2", {}, "other", "1:00:00")):
-            name = f"job_batch_{1 if gname == 'g1' else 2}"
-            script = os.path.join(out, f"run_batch_{gname}.sh")
+        # two batches per group through the same manager object (a submitter round creates several scripts in a row)
+        for gname, exp_opts, ea, ew, bn in (("g1", opts, acct, wall, 1), ("g2", {}, "other", "1:00:00", 2),
+                                            ("g1", opts, acct, wall, 3), ("g2", {}, "other", "1:00:00", 14)):
+            name = f"job_batch_{bn}"
+            script = os.path.join(out, f"run_batch_{bn}.sh")
             job_id, status = mgr.submit(out, name, script, gname, dry_run=True)
             if status != Status.GOOD:
                 res.append(V("dry-run-status", f"dry-run submit returned {status}"))
@@ -80,7 +82,7 @@ class C18Script(EnumCheck):
                 text = f.read()
             exp = ref_script(name, script, out, ea, ew, exp_opts)
             if text != exp:
-                res.append(V("script-text", f"submission script for group {gname} with {exp_opts}:\n{text!r}\n!= reference\n{exp!r}"))
+                res.append(V("script-text", f"submission script {name} for group {gname} with {exp_opts}:\n{text!r}\n!= reference\n{exp!r}"))
         return res
 
     def nontrivial(self, c):
